@@ -22,10 +22,10 @@ if [ "$MODE" != "suite" ]; then
   : > $LOG
   reset; git apply --whitespace=nowarn $SD/patch.diff && git apply --whitespace=nowarn $SD/demo.diff || { echo "APPLY FAILED" >> $LOG; exit 1; }
   echo "### demo WITH change: $DEMO" >> $LOG
-  ( eval "timeout 900 $DEMO" ) > $SD/demo_with.log 2>&1; echo "exit=$?" >> $LOG; grep -E "^test result|panicked|FAILED|failed" $SD/demo_with.log | head -6 >> $LOG
+  ( timeout 900 bash -c "$DEMO" ) > $SD/demo_with.log 2>&1; echo "exit=$?" >> $LOG; grep -E "^test result|panicked|FAILED|failed" $SD/demo_with.log | head -6 >> $LOG
   reset; git apply --whitespace=nowarn $SD/demo.diff
   echo "### demo WITHOUT change" >> $LOG
-  ( eval "timeout 900 $DEMO" ) > $SD/demo_without.log 2>&1; echo "exit=$?" >> $LOG; grep -E "^test result|panicked|FAILED|failed" $SD/demo_without.log | head -6 >> $LOG
+  ( timeout 900 bash -c "$DEMO" ) > $SD/demo_without.log 2>&1; echo "exit=$?" >> $LOG; grep -E "^test result|panicked|FAILED|failed" $SD/demo_without.log | head -6 >> $LOG
 fi
 if [ "$MODE" != "demo" ]; then
   reset; git apply --whitespace=nowarn $SD/patch.diff
